@@ -1,6 +1,6 @@
 (* C07 simulation: the dispatch of the reference EVM by opcode byte (one lemma per byte or range of bytes;
    ranges are enumerated for the DISPATCH only -- the semantics stay generic in n). *)
-From SLX Require Import Base Word256 EvmSpec Evm.
+From SLX Require Import Base Word256 EvmSpec Evm SimGuards.
 Open Scope N_scope.
 Set Default Timeout 300.
 
@@ -92,8 +92,8 @@ Lemma estep_push bs br e b : byte_at bs (e_pc e) = Some b -> 96 <= b <= 127 ->
 Proof.
   intros Hb Hr. assert (Hk : b - 96 < 32) by lia.
   replace b with (96 + (b - 96)) in Hb |- * by lia. revert Hk Hb. generalize (b - 96) as k. clear Hr b.
-  intros k Hk Hb. unfold estep. rewrite Hb. clear Hb. pattern k. revert k Hk.
-  apply cases32; reflexivity.
+  intros k Hk Hb. unfold estep. rewrite Hb. clear Hb. pattern k. match goal with |- ?P k => set (Q := P) end. revert k Hk.
+  apply (cases32 Q); unfold Q; reflexivity.
 Qed.
 
 Lemma estep_dup bs br e b : byte_at bs (e_pc e) = Some b -> 128 <= b <= 143 ->
@@ -103,8 +103,8 @@ Lemma estep_dup bs br e b : byte_at bs (e_pc e) = Some b -> 128 <= b <= 143 ->
 Proof.
   intros Hb Hr. assert (Hk : b - 128 < 16) by lia.
   replace b with (128 + (b - 128)) in Hb |- * by lia. revert Hk Hb. generalize (b - 128) as k. clear Hr b.
-  intros k Hk Hb. unfold estep. rewrite Hb. clear Hb. pattern k. revert k Hk.
-  apply cases16; reflexivity.
+  intros k Hk Hb. unfold estep. rewrite Hb. clear Hb. pattern k. match goal with |- ?P k => set (Q := P) end. revert k Hk.
+  apply (cases16 Q); unfold Q; reflexivity.
 Qed.
 
 Lemma estep_swap bs br e b : byte_at bs (e_pc e) = Some b -> 144 <= b <= 159 ->
@@ -116,7 +116,36 @@ Lemma estep_swap bs br e b : byte_at bs (e_pc e) = Some b -> 144 <= b <= 159 ->
 Proof.
   intros Hb Hr. assert (Hk : b - 144 < 16) by lia.
   replace b with (144 + (b - 144)) in Hb |- * by lia. revert Hk Hb. generalize (b - 144) as k. clear Hr b.
-  intros k Hk Hb. unfold estep. rewrite Hb. clear Hb. pattern k. revert k Hk.
-  apply cases16; reflexivity.
+  intros k Hk Hb. unfold estep. rewrite Hb. clear Hb. pattern k. match goal with |- ?P k => set (Q := P) end. revert k Hk.
+  apply (cases16 Q); unfold Q; reflexivity.
 Qed.
 
+
+(* INVALID and the unassigned bytes: a normal halt in any state *)
+Lemma cases256 (P : N -> Prop) : P 0 -> P 1 -> P 2 -> P 3 -> P 4 -> P 5 -> P 6 -> P 7 -> P 8 -> P 9 -> P 10 -> P 11 -> P 12 -> P 13 -> P 14 -> P 15 -> P 16 -> P 17 -> P 18 -> P 19 -> P 20 -> P 21 -> P 22 -> P 23 -> P 24 -> P 25 -> P 26 -> P 27 -> P 28 -> P 29 -> P 30 -> P 31 -> P 32 -> P 33 -> P 34 -> P 35 -> P 36 -> P 37 -> P 38 -> P 39 -> P 40 -> P 41 -> P 42 -> P 43 -> P 44 -> P 45 -> P 46 -> P 47 -> P 48 -> P 49 -> P 50 -> P 51 -> P 52 -> P 53 -> P 54 -> P 55 -> P 56 -> P 57 -> P 58 -> P 59 -> P 60 -> P 61 -> P 62 -> P 63 -> P 64 -> P 65 -> P 66 -> P 67 -> P 68 -> P 69 -> P 70 -> P 71 -> P 72 -> P 73 -> P 74 -> P 75 -> P 76 -> P 77 -> P 78 -> P 79 -> P 80 -> P 81 -> P 82 -> P 83 -> P 84 -> P 85 -> P 86 -> P 87 -> P 88 -> P 89 -> P 90 -> P 91 -> P 92 -> P 93 -> P 94 -> P 95 -> P 96 -> P 97 -> P 98 -> P 99 -> P 100 -> P 101 -> P 102 -> P 103 -> P 104 -> P 105 -> P 106 -> P 107 -> P 108 -> P 109 -> P 110 -> P 111 -> P 112 -> P 113 -> P 114 -> P 115 -> P 116 -> P 117 -> P 118 -> P 119 -> P 120 -> P 121 -> P 122 -> P 123 -> P 124 -> P 125 -> P 126 -> P 127 -> P 128 -> P 129 -> P 130 -> P 131 -> P 132 -> P 133 -> P 134 -> P 135 -> P 136 -> P 137 -> P 138 -> P 139 -> P 140 -> P 141 -> P 142 -> P 143 -> P 144 -> P 145 -> P 146 -> P 147 -> P 148 -> P 149 -> P 150 -> P 151 -> P 152 -> P 153 -> P 154 -> P 155 -> P 156 -> P 157 -> P 158 -> P 159 -> P 160 -> P 161 -> P 162 -> P 163 -> P 164 -> P 165 -> P 166 -> P 167 -> P 168 -> P 169 -> P 170 -> P 171 -> P 172 -> P 173 -> P 174 -> P 175 -> P 176 -> P 177 -> P 178 -> P 179 -> P 180 -> P 181 -> P 182 -> P 183 -> P 184 -> P 185 -> P 186 -> P 187 -> P 188 -> P 189 -> P 190 -> P 191 -> P 192 -> P 193 -> P 194 -> P 195 -> P 196 -> P 197 -> P 198 -> P 199 -> P 200 -> P 201 -> P 202 -> P 203 -> P 204 -> P 205 -> P 206 -> P 207 -> P 208 -> P 209 -> P 210 -> P 211 -> P 212 -> P 213 -> P 214 -> P 215 -> P 216 -> P 217 -> P 218 -> P 219 -> P 220 -> P 221 -> P 222 -> P 223 -> P 224 -> P 225 -> P 226 -> P 227 -> P 228 -> P 229 -> P 230 -> P 231 -> P 232 -> P 233 -> P 234 -> P 235 -> P 236 -> P 237 -> P 238 -> P 239 -> P 240 -> P 241 -> P 242 -> P 243 -> P 244 -> P 245 -> P 246 -> P 247 -> P 248 -> P 249 -> P 250 -> P 251 -> P 252 -> P 253 -> P 254 -> P 255 -> forall k, k < 256 -> P k.
+Proof.
+  intros H0 H1 H2 H3 H4 H5 H6 H7 H8 H9 H10 H11 H12 H13 H14 H15 H16 H17 H18 H19 H20 H21 H22 H23 H24 H25 H26 H27 H28 H29 H30 H31 H32 H33 H34 H35 H36 H37 H38 H39 H40 H41 H42 H43 H44 H45 H46 H47 H48 H49 H50 H51 H52 H53 H54 H55 H56 H57 H58 H59 H60 H61 H62 H63 H64 H65 H66 H67 H68 H69 H70 H71 H72 H73 H74 H75 H76 H77 H78 H79 H80 H81 H82 H83 H84 H85 H86 H87 H88 H89 H90 H91 H92 H93 H94 H95 H96 H97 H98 H99 H100 H101 H102 H103 H104 H105 H106 H107 H108 H109 H110 H111 H112 H113 H114 H115 H116 H117 H118 H119 H120 H121 H122 H123 H124 H125 H126 H127 H128 H129 H130 H131 H132 H133 H134 H135 H136 H137 H138 H139 H140 H141 H142 H143 H144 H145 H146 H147 H148 H149 H150 H151 H152 H153 H154 H155 H156 H157 H158 H159 H160 H161 H162 H163 H164 H165 H166 H167 H168 H169 H170 H171 H172 H173 H174 H175 H176 H177 H178 H179 H180 H181 H182 H183 H184 H185 H186 H187 H188 H189 H190 H191 H192 H193 H194 H195 H196 H197 H198 H199 H200 H201 H202 H203 H204 H205 H206 H207 H208 H209 H210 H211 H212 H213 H214 H215 H216 H217 H218 H219 H220 H221 H222 H223 H224 H225 H226 H227 H228 H229 H230 H231 H232 H233 H234 H235 H236 H237 H238 H239 H240 H241 H242 H243 H244 H245 H246 H247 H248 H249 H250 H251 H252 H253 H254 H255 k Hk.
+  repeat match goal with H : P ?v |- _ => destruct (N.eq_dec k v) as [->|?]; [exact H|clear H] end. lia.
+Qed.
+
+Lemma evm_halts_lt b : evm_halts b = true -> b < 256.
+Proof.
+  unfold evm_halts. rewrite !orb_true_iff, !andb_true_iff, !N.leb_le, N.eqb_eq. intros [[[[H|H]|H]|H]|H]; try lia.
+  apply existsb_exists in H as (x & Hin & E). apply N.eqb_eq in E. subst x.
+  cbn [In] in Hin. repeat (destruct Hin as [<-|Hin]; [lia|]). contradiction.
+Qed.
+
+Lemma estep_halts bs br e b : evm_halts b = true -> byte_at bs (e_pc e) = Some b -> estep bs br e = EHalt e.
+Proof.
+  intros Hh Hb. pose proof (evm_halts_lt b Hh) as Hlt. unfold estep. rewrite Hb. clear Hb.
+  revert Hh. pattern b. match goal with |- ?P b => set (Q := P) end. revert b Hlt.
+  apply (cases256 Q); unfold Q; intros Hh; first [(vm_compute in Hh; discriminate Hh) | reflexivity].
+Qed.
+
+Lemma evm_halts_not_push b : 96 <= b <= 127 -> evm_halts b = false.
+Proof.
+  intros Hr. destruct (evm_halts b) eqn:E; [|reflexivity]. exfalso. revert E.
+  unfold evm_halts. rewrite !orb_true_iff, !andb_true_iff, !N.leb_le, N.eqb_eq. intros [[[[H|H]|H]|H]|H]; try lia.
+  apply existsb_exists in H as (x & Hin & E). apply N.eqb_eq in E. subst x.
+  cbn [In] in Hin. repeat (destruct Hin as [<-|Hin]; [lia|]). contradiction.
+Qed.
